@@ -29,6 +29,7 @@ Record case := mkcase {
   c_exact : bool;                  (* every float operation of the implementation is exact on this input *)
   c_faffs : list mat;              (* observed single-file NIfTI affines (from_dicom_wrapper), parallel to c_files *)
   c_rescale : list rescale;        (* stored pixels and scale factors of every file, parallel to c_files *)
+  c_T : option mat;                (* meta_ext.reorient_transform of the same conversion with embed_meta=True (None: not observed) *)
   c_obs : obs
 }.
 
@@ -95,7 +96,8 @@ Definition model (c : case) : res state * (state * res (geom_out * hdr_out)) :=
 Definition check_state (c : case) (st' : state) : bool :=
   nats_eqb (ids (files_info st')) (ob_order (c_obs c)) && Bool.eqb (shape_dirty st') (ob_dirty (c_obs c)).
 
-(** values + geometry (C02); the file order left behind by the call is compared in [check_hdr] *)
+(** values + geometry + reported transform (C02).  The private state left behind by the call ([check_state]: order of
+    _files_info, _shape_dirty) is NOT part of either check: only public results are compared. *)
 Definition check_geom (c : case) : bool :=
   contracts_ok (c_exact c) (c_files c) (c_faffs c) && rescales_ok (c_files c) (c_rescale c) &&
   match model c with
@@ -107,7 +109,8 @@ Definition check_geom (c : case) : bool :=
           nats_eqb (ashape (go_data go)) (ob_shape (c_obs c)) &&
           zs_eqb (adata (go_data go)) (ob_data (c_obs c)) &&
           str_eqb (go_dtype go) (ob_dtype (c_obs c)) &&
-          mat_close (c_exact c) (go_aff go) (ob_aff (c_obs c))
+          mat_close (c_exact c) (go_aff go) (ob_aff (c_obs c)) &&
+          match c_T c with Some T => mat_close true (go_T go) T | None => true end
       | _, _ => false
       end
   end.
@@ -117,7 +120,6 @@ Definition check_hdr (c : case) : bool :=
   match model c with
   | (Err _, _) => false
   | (Ok _, (st', r)) =>
-      check_state c st' &&
       match r, ob_err (c_obs c) with
       | Err e, Some e' => err_eqb e e'
       | Ok (_, h), None =>
